@@ -76,6 +76,17 @@ def run(chk, tier, scale=1.0):
         prun.fold(chk, "C01", rs)
     for rs in vcommon.pmap(pcommon.script_worker, pcommon.reload_jobs(b, chk.seed, PROPS, int((180 if tier == "quick" else 4500) * scale), tag="rls1")):
         prun.fold(chk, "C01", rs)
+    # bursts on the unhooked channel: many clients decided within one write, with more lines about them right behind (judged on
+    # the output stream alone: exactly one verdict per id, nothing about an id after its verdict)
+    for r in vcommon.pmap(pcommon.burst_worker, [dict(build=b, seed=chk.seed * 991 + k, n=[30, 100, 250][k % 3], service=(k % 2 == 1), after=True)
+                                                 for k in range(int((9 if tier == "quick" else 150) * scale) or 1)]):
+        chk.add_case(r["hash"], r["nontrivial"])
+        chk.merge_counts(r["stats"])
+        for w in r["inconc"]:
+            chk.inconc(w)
+        for (p, rule, sig, text, wit) in r["viol"]:
+            if p == "C01":
+                chk.violation(Violation(p, rule, sig, text, wit))
     # exhaustive orders of a 7-event script: two instances of one id, queries, replies, disconnect
     perms = list(itertools.permutations(range(len(SCRIPT))))
     if tier == "quick":
@@ -106,4 +117,10 @@ def run(chk, tier, scale=1.0):
 
 
 def replay(chk, rep):
+    w = rep["witness"]
+    if w.get("burst"):
+        r = pcommon.burst_worker(dict(build=prun.build_daemon("c01-replay"), seed=w["seed"], n=w["n"], service=w["service"], after=w.get("after")))
+        for v in r["viol"]:
+            print(v[3])
+        return 1 if r["viol"] else 0
     return prun.replay_witness(chk, rep, PROPS)
